@@ -13,7 +13,8 @@
     The model follows the library with fixes 57..59 applied. *)
 From Coq Require Import NArith ZArith List Bool.
 From KdV Require Import Base.Wrap64 Attr.AttrBase Attr.AttrTree Attr.AttrSpec Attr.AttrProofs
-  Attr.AttrHash Attr.AttrHashProofs Attr.AttrChain Attr.AttrChainProofs.
+  Attr.AttrHash Attr.AttrHashProofs Attr.AttrChain Attr.AttrChainProofs
+  Attr.AttrChainVal Attr.AttrChainValProofs.
 Import ListNotations.
 Local Open Scope N_scope.
 
@@ -330,6 +331,61 @@ Print Assumptions C13_chain_ops_wellformed.
 Theorem C13_chain_invb_sound : forall s, invb s = true -> inv s.
 Proof. exact invb_sound. Qed.
 Print Assumptions C13_chain_invb_sound.
+
+(** ---- values through the levels (Attr/AttrChainVal.v) ----
+    A value belongs to the attribute (dictionary, path) that a level's lookup
+    ends at; [vowner s i p] is that attribute for level i. *)
+
+(** a set (or a clear: v = None) through level i is seen through EXACTLY the
+    levels whose lookup of the key ends at the same attribute; every other
+    level keeps what it saw; no other key changes through any level *)
+Theorem C13_chain_set_seen_by_sharers_only : forall s i p v k i',
+  vowner s i p = Some k ->
+  vget (vset s i p v) i' p =
+  match vowner s i' p with
+  | Some k' => if Nat.eqb k' k then v else vget s i' p
+  | None => None
+  end.
+Proof. exact vget_vset. Qed.
+Print Assumptions C13_chain_set_seen_by_sharers_only.
+
+Theorem C13_chain_set_other_keys : forall s i p v i' p',
+  p' <> p -> vget (vset s i p v) i' p' = vget s i' p'.
+Proof. exact vget_vset_other. Qed.
+Print Assumptions C13_chain_set_other_keys.
+
+(** a KDUMP_CLONE_XLAT clone of level i (new level n = number of dictionaries):
+    the old levels see what they saw; the new level shows for EVERY key the
+    value level i shows (private copies carry the values, the rest falls
+    through); from then on the clone's lookup of a private path ends in its own
+    dictionary and of any other path where level i's ends — so, with the theorem
+    above, sets of private keys are per clone and sets of all other keys are
+    seen through both *)
+Theorem C13_chain_clone_values : forall s i priv,
+  dwf (cs s) -> i < length (dicts (cs s)) ->
+  (forall a, In a (attrs (cs s)) -> a_table a < length (dicts (cs s))) ->
+  let n := length (dicts (cs s)) in
+  let s' := vclone_xlat s i priv in
+  (forall i' p, i' < n -> vget s' i' p = vget s i' p) /\
+  (forall p, vget s' n p = vget s i p) /\
+  (forall p, vowner s' n p = if in_dec cpath_eq_dec p priv then Some n else vowner s i p).
+Proof. exact vclone_values. Qed.
+Print Assumptions C13_chain_clone_values.
+
+(** the hypotheses hold along the replayed histories: [dwfb] and [invb] are
+    evaluated on every state; a clone keeps [dwf] *)
+Theorem C13_chain_clone_hyps :
+  (forall c, dwfb c = true -> dwf c) /\
+  (forall c, inv c -> forall a, In a (attrs c) -> a_table a < length (dicts c)) /\
+  (forall c i priv, dwf c -> i < length (dicts c) -> dwf (clone_xlat_ref c i priv)).
+Proof. exact (conj dwfb_sound (conj inv_tables_lt dwf_clone)). Qed.
+Print Assumptions C13_chain_clone_hyps.
+
+Theorem C13_chain_values_nonvacuous :
+  map (fun i => vget (vset v_chain3 2 [nm_xlat] (Some 7%N)) i [nm_xlat]) [0; 1; 2]%nat = [None; None; Some 7%N] /\
+  map (fun i => vget (vset v_chain3 2 [nm_linux] (Some 9%N)) i [nm_linux]) [0; 1; 2]%nat = [Some 9%N; Some 9%N; Some 9%N].
+Proof. exact (conj v_chain3_private v_chain3_shared). Qed.
+Print Assumptions C13_chain_values_nonvacuous.
 
 Theorem C13_chain_nonvacuous : inv s_chain3 /\ chain s_chain3 2 = [2; 1; 0]%nat.
 Proof. exact (conj s_chain3_inv chain3_walk). Qed.
